@@ -42,7 +42,7 @@ Theorem C08_accepted_keyed f w now key final :
   declared_ok (w_opts w) (sri_of hash (w_algo w) (w_data w)) = Some final ->
   size_ok (w_opts w) (lenN (w_data w)) = true ->
   wf_rec hash (smeta_of key (commit_opts (w_opts w) final (lenN (w_data w))) now) ->
-  parse_sri (sri_text final) = Some final ->
+  parse_entry_sri (sri_text final) = Some final ->
   fst (run (commit hash w now) f) = Ok final /\
   CacheInv (snd (run (commit hash w now) f)) /\
   (forall k, abs_idx hash (snd (run (commit hash w now) f)) k
